@@ -15,6 +15,7 @@ PROP = {
              "non-trivial when the pattern contains a parameter, a wildcard or a metacharacter and the engine matches it; "
              "distinct = distinct canonical JSON of (kind, entry, request)"),
     "assumptions": [
+        "policy reload unit: when the proxy refuses a reload (an admin call answered 503) the engine stays on the configuration of the last reload that succeeded; that configuration must stay registered - right after the refusal and when the un-registrations deferred by earlier reloads have run (one case in four builds: endpoint dropped, declared again within 30 s, then a refused reload without it)",
         "the gateway's log level (LOG_LEVEL: off in three cases of eight, else error / info / debug / trace; what is logged is thrown away, what a log statement does to build its arguments happens) is a generated part of every case of TestFlowFilterRegistered, TestPolicyEndpointRegistered and TestProxyMapOverReloads: no answer may depend on it; a failing case reports its level",
         "reload units (TestProxyMapOverReloads, TestProxyMapOverPolicyReloads): the in-process proxy keeps the managed-endpoint map as HAProxy's configuration does (PUT adds the key, DELETE removes it, manage_all / unmanage_global / unmanage_all; the read-only GET side answers as haproxy.cfg defines it: /managed_endpoint says whether the body, taken as text, is matched by a stored expression - map_reg, not a key look-up -, /manage_all the flag), may answer one admin call of a reload with 503, and the deferred un-registration (30 s on the process clock) is driven by the virtual clock and awaited through the goroutine dump; histories of 2-4 reloads over a pool of 2-3 URL patterns (flows unit: the next reload may also arrive while the deferred un-registration of the one before is at work - the in-process proxy keeps its first DELETE waiting until the reload has been answered, at most 150 ms - and one case in three is A, B, A-again with that overlap; one case in four is an endpoint covered by another one's expression ({id} or /* over a literal segment, host without a dot - a service name - half of the time): the covering one alone, then both, then the covered one alone; a flow's processor either needs the request body (registered with the include-body map too) or not, and one reload in four keeps the filters of the reload before and flips that requirement); a refused reload is not judged (which configuration then runs is C08's subject)",
         "HAProxy's regex engine (map_reg: unanchored search, case-sensitive) is approximated by Go regexp (RE2); an expression Go cannot compile counts as matching nothing",
